@@ -49,7 +49,7 @@ func runSafety(r *ev.Run, which string) {
 			}
 		}
 	}
-	plan := []Plan{{"byz", 1500, 60000}, {"async-benign", 700, 30000}, {"missing-tx", 300, 10000}, {"sync-perm", 200, 5000}, {"amnesia-async", 300, 20000}}
+	plan := []Plan{{"byz", 1500, 30000}, {"async-benign", 700, 15000}, {"missing-tx", 300, 6000}, {"sync-perm", 200, 5000}, {"amnesia-async", 300, 10000}}
 	RunPlan(r, plan, func(s Spec) {
 		cert := mon.NewCert()
 		agree := &mon.Agree{Cert: cert}
